@@ -368,6 +368,71 @@ def g_set_stress(r):
     return files
 
 
+def routes_sources():
+    """Class names ending in `Class` and well-known namespaces: what GeneratorConfig.create()'s default substitutions
+    would rewrite (so a route that silently starts from the init-config template shows up), list fields and an enum."""
+    a = ('<xs:schema xmlns:xs="%s" xmlns:xlink="http://www.w3.org/1999/xlink" xmlns:enc="http://schemas.xmlsoap.org/soap/encoding/">'
+         '<xs:import namespace="http://www.w3.org/1999/xlink" schemaLocation="lib/link.xsd"/>'
+         '<xs:import namespace="http://schemas.xmlsoap.org/soap/encoding/" schemaLocation="lib/enc.xsd"/>'
+         '<xs:simpleType name="colourClass"><xs:restriction base="xs:string"><xs:enumeration value="red"/><xs:enumeration value="dark blue"/></xs:restriction></xs:simpleType>'
+         '<xs:complexType name="shapeClass"><xs:sequence><xs:element name="point" type="xs:int" maxOccurs="unbounded"/>'
+         '<xs:element name="colour" type="colourClass" minOccurs="0"/><xs:element name="link" type="xlink:linkClass" minOccurs="0"/>'
+         '<xs:element name="items" type="enc:arrayClass" minOccurs="0" maxOccurs="3"/></xs:sequence><xs:attribute name="id" type="xs:ID"/></xs:complexType>'
+         '<xs:complexType name="itemClass"><xs:choice maxOccurs="unbounded"><xs:element name="a" type="xs:string"/><xs:element name="b" type="shapeClass"/></xs:choice></xs:complexType>'
+         '<xs:element name="root"><xs:complexType><xs:sequence><xs:element name="shape" type="shapeClass" maxOccurs="unbounded"/>'
+         '<xs:element name="item" type="itemClass"/></xs:sequence></xs:complexType></xs:element></xs:schema>' % XS)
+    b = ('<xs:schema xmlns:xs="%s" targetNamespace="http://www.w3.org/1999/xlink" elementFormDefault="qualified">'
+         '<xs:complexType name="linkClass"><xs:sequence><xs:element name="href" type="xs:anyURI"/></xs:sequence></xs:complexType></xs:schema>' % XS)
+    c = ('<xs:schema xmlns:xs="%s" targetNamespace="http://schemas.xmlsoap.org/soap/encoding/" elementFormDefault="qualified">'
+         '<xs:complexType name="arrayClass"><xs:sequence><xs:element name="v" type="xs:decimal" maxOccurs="unbounded"/></xs:sequence></xs:complexType></xs:schema>' % XS)
+    return {"app.xsd": a, "lib/link.xsd": b, "lib/enc.xsd": c}
+
+
+ROUTE_FIXED = [{}, {"format.order": True, "format.eq": False}, {"generic_collections": True, "format.frozen": True},
+               {"format.frozen": True, "format.slots": True}, {"format.unsafe_hash": True, "format.eq": False, "structure_style": "namespaces"},
+               {"format.order": True, "format.eq": False, "format.frozen": True, "generic_collections": True, "structure_style": "clusters"},
+               {"format.repr": False, "compound_fields.enabled": True, "structure_style": "single-package", "package": "pkg.models"}]
+
+
+def g_route_options(r):
+    """Options that can be spelled as `xsdata generate` flags, incl. conflicting / dependent ones that validate() resolves."""
+    o = {}
+    if r.random() < 0.6:
+        o["structure_style"] = r.choice(STYLES)
+    if r.random() < 0.5:
+        o["package"] = r.choice(["gen", "pkg.models", "a.b.c"])
+    if r.random() < 0.3:
+        o["docstring_style"] = r.choice(["reStructuredText", "NumPy", "Google", "Accessible", "Blank"])
+    for k in ("relative_imports", "compound_fields.enabled", "wrapper_fields", "generic_collections", "unnest_classes", "ignore_patterns"):
+        if r.random() < 0.35:
+            o[k] = r.random() < 0.7
+    if r.random() < 0.25:
+        o["max_line_length"] = r.choice([60, 79, 100, 120])
+    for k in ("format.repr", "format.eq", "format.order", "format.unsafe_hash", "format.frozen", "format.slots"):
+        if r.random() < 0.45:
+            o[k] = r.random() < 0.5
+    if r.random() < 0.15:
+        o["format.value"] = "dataclasses"
+    return o
+
+
+def g_route_op(r, options, generate):
+    keys = list(options)
+    file_keys = [k for k in keys if r.random() < 0.5]
+    overridden = {}
+    if file_keys and r.random() < 0.4:
+        k = r.choice(file_keys)
+        v = options[k]
+        if isinstance(v, bool):
+            overridden[k] = not v
+        elif k == "structure_style":
+            overridden[k] = r.choice([x for x in STYLES if x != v])
+        elif k == "package":
+            overridden[k] = "other.pkg"
+    return {"op": "routes", "sources": routes_sources(), "options": options, "file_keys": file_keys, "file_overridden": overridden,
+            "generate": generate}
+
+
 STYLES = ["filenames", "namespaces", "clusters", "single-package", "namespace-clusters"]
 
 
@@ -849,6 +914,27 @@ def run(ck: Check):
     bg = cf.ThreadPoolExecutor(max_workers=1)
     cores_future = bg.submit(cores_part, random.Random(ck.seed * 7919 + 12))
 
+    # ================================================================== C. invocation routes (background thread)
+    def routes_part(r):
+        if rp is not None:
+            o = rp.get("op")
+            rops = [dict(o, generate=True)] if isinstance(o, dict) and o.get("op") == "routes" else []
+        else:
+            rops = [g_route_op(r, dict(o), True) for o in ROUTE_FIXED]
+            rops += [g_route_op(r, g_route_options(r), True) for _ in range(ck.n(6, 60))]
+            rops += [g_route_op(r, g_route_options(r), False) for _ in range(ck.n(120, 1200))]
+        if not rops:
+            return [], []
+        chunks = [rops[i::4] for i in range(4)]
+        with cf.ThreadPoolExecutor(max_workers=4) as ex:
+            parts = list(ex.map(lambda c: run_impl("impl_c12.py", {"ops": c}, timeout=1800, with_shims=True, hashseed=seeds[0])["results"] if c else [], chunks))
+        flat_ops = [o for c in chunks for o in c]
+        flat_res = [x for p in parts for x in p]
+        return flat_ops, flat_res
+
+    bg2 = cf.ThreadPoolExecutor(max_workers=1)
+    routes_future = bg2.submit(routes_part, random.Random(ck.seed * 104729 + 5))
+
     # ================================================================== B. the real pipeline
     fsets = fixture_sets()
     jobs = []
@@ -1078,6 +1164,42 @@ def run(ck: Check):
     ops, per_seed, idx, t_cores, coq_times = L["ops"], L["per_seed"], L["idx"], L["t_cores"], L["coq_times"]
     ck.cov["evaluations"] += L["core_evals"]
 
+    # ================================================================== judge the invocation routes
+    rops, rres = routes_future.result()
+    bg2.shutdown()
+    ck.cov["evaluations"] += len(rops)
+    rstat = {"option_sets": len(rops), "with_generation": sum(1 for o in rops if o.get("generate")), "route_errors": 0}
+    for o, x in zip(rops, rres):
+        if "harness_error" in x:
+            raise RuntimeError("routes op failed in the harness: " + x["trace"])
+        base = {"op": {k: v for k, v in o.items() if k != "generate"}, "argv": x.get("argv"),
+                "how": "./check C12 --replay <this file>; routes: api = constructors, file = .xsdata.xml written/read, cli = real cli.generate "
+                       "with these flags and no project file, cli_file = project file (file_keys, file_overridden) + the remaining flags"}
+        distinct.add(("routes", json.dumps(o["options"], sort_keys=True), tuple(o["file_keys"])))
+        if x["errors"]:
+            rstat["route_errors"] += 1
+            if set(x["errors"]) != {"api", "file", "cli", "cli_file"} or len({e["err"] for e in x["errors"].values()}) != 1:
+                ck.failure("route-error-differs", f"options {o['options']}: only some invocation routes fail: { {k: v['err'] + ': ' + v['msg'][:80] for k, v in x['errors'].items()} }",
+                           dict(base, errors=x["errors"]))
+            continue
+        if x.get("uris") != x.get("expected_uris"):
+            ck.failure("cli-source-order", f"cli.resolve_source handed {x.get('uris')} to the transformer, expected the sorted list {x.get('expected_uris')}", base)
+        for name in ("file", "cli", "cli_file"):
+            if x["cfg"][name] != x["cfg"]["api"]:
+                d = first_diff(x["cfg"]["api"], x["cfg"][name])
+                ck.failure("route-config-differs",
+                           f"options {o['options']} (flags {x['argv']}): the configuration reached through route `{name}` differs from the API "
+                           f"route at {d[0]}: api={d[1]!r} {name}={d[2]!r}", dict(base, route=name, first_difference=d))
+        for name, y in (x.get("out") or {}).items():
+            a = x["out"]["api"]
+            if (y["status"], y["error_type"], y["files"]) != (a["status"], a["error_type"], a["files"]):
+                d = first_diff({"status": a["status"], "error_type": a["error_type"], "files": a["files"]},
+                               {"status": y["status"], "error_type": y["error_type"], "files": y["files"]})
+                ck.failure("route-output-differs",
+                           f"options {o['options']} (flags {x['argv']}): generation through route `{name}` differs from the API route at {d[0]}: "
+                           f"{str(d[1])[:100]!r} vs {str(d[2])[:100]!r}", dict(base, route=name, first_difference=d))
+    ck.cov["invocation_routes"] = rstat
+
     # ================================================================== evidence
     ck.cov["distinct_nontrivial"] = len(distinct)
     ck.cov["rule"] = ("cores: random graphs / dependency dicts / class containers / type lists / sequence-label lists / import lists with "
@@ -1088,7 +1210,8 @@ def run(ck: Check):
     ck.cov["seeds"] = seeds if len(seeds) <= 8 else seeds[:8] + ["... %d in total" % len(seeds)]
     ck.cov["core_seeds"] = core_seeds
     ck.cov["routes"] = {"api_options": "exercised", "config_file_write_read": "exercised", "repeat_run": "exercised (2 per seed)",
-                        "cli_flags": "NOT executable (click absent)", "cli_init_config": "NOT executable (click absent)",
+                        "cli_flags": "exercised: the real cli.generate (option table of model_options(GeneratorOutput), kwargs->params, GeneratorConfig.read of the cwd project file, output.update, resolve_source) run on a stand-in for click's decorator API and argv parser (harness/impl_c12.install_click)",
+                        "cli_flags_plus_project_file": "exercised", "cli_init_config": "not exercised",
                         "cache_flag": "not exercised"}
     ck.cov["wall_cores_s"] = round(t_cores, 1)
     ck.cov["coq_case_files"] = coq_times
